@@ -1404,6 +1404,8 @@ class ServiceAnnouncer:
         self.started = True
 
     def stop(self):
+        if not self.started:
+            return
         for instance in self.announcing_services:
             instance.stop()
         self.started = False
